@@ -79,7 +79,7 @@ def corrupt(rs):
     return i
 
 
-FEATURES = os.path.join(core.ROOT, "featprobe")
+FEATURES = core.FEATPROBE
 
 
 def build_config(cfg, tdir):
@@ -97,7 +97,7 @@ def features(ctx):
     core.tlc_ok(r, "MC_Features")
     ctx.add_tlc(r, "MC_Features_%d" % level, "configuration_enumeration")
     cfgs = [p for p in r.prints if isinstance(p, dict) and "base" in p]
-    shutil.copy("/repo/Cargo.lock", os.path.join(FEATURES, "Cargo.lock"))
+    shutil.copy(os.path.join(core.REPO, "Cargo.lock"), os.path.join(FEATURES, "Cargo.lock"))
     nw = 8
     root = os.path.join(core.WORK, "feat")
     shutil.rmtree(root, ignore_errors=True)
